@@ -156,7 +156,7 @@ CHECKS = {
         engine="ops", design_ref="DESIGN.md §6 C16",
         technique="Lean 4 theorems parametric in the plain semantics (the wiring unwrap/apply/wrap/write-back is proved for EVERY PlainSem) + source operator tables as proof obligations + differential execution vs the plain C++ expression",
         text=("Proof: C16_value, C16_compare (value = plain comparison; hint iff sandbox memory is involved; never a plain bool), C16_logical / C16_cppLog (&& and ||: plain value, always tainted<bool>), C16_unary, C16_update_tainted, C16_update_tvol (stored value = plain result or "
-              "abort, never a different value), C16_incdec_return, C16_float_incdec / C16_float_rederive_differs / C16_float_exact / C16_float_comm / C16_float_result_type (floating-point operands: engine `fops`, exact dyadic arithmetic with one rounding), for every plain semantics and every wrapper combination; ops_tables_match ties the operator macro instantiation lists and the bodies of "
+              "abort, never a different value), C16_incdec_return, C16_float_incdec / C16_float_rederive_differs / C16_float_exact / C16_float_comm / C16_float_result_type / C16_float_nan_compare / C16_float_neg_zero (floating-point operands incl. NaN, infinities and signed zeros: engine `fops`, exact dyadic arithmetic with one rounding), for every plain semantics and every wrapper combination; ops_tables_match ties the operator macro instantiation lists and the bodies of "
               "Pre/PostIncDecOps/CompoundAssignmentOp to rlbox.hpp on every run. Tied to the code by 16 operators x 8 wrapper combinations x 121 type pairs, all 8-bit x 8-bit operand pairs by block hash "
               "(8.4M evaluations in quick), compound assignment and ++/--, with result types asserted at compile time and values compared with the plain expression and with an independent Python rendering."),
         note=NOTE + "The executable C++ integer rules (cppSem, LP64) are used only by the correspondence check; floating point is not exercised."),
